@@ -379,7 +379,7 @@ def main():
     cov = dict(
         evaluations=agg["evaluations"],
         distinct_nontrivial=distinct,
-        rule=spec["rule"] + ("" if hashes_exact else " [distinct count: sum of per-shard distinct counts; shards partition the enumeration by case index]"),
+        rule=spec["rule"] + (" [one gated case (= one evaluation) may contain several sub-cases whose non-trivial ones are hashed individually, hence distinct_nontrivial can exceed evaluations]" if distinct > agg["evaluations"] else "") + ("" if hashes_exact else " [distinct count: sum of per-shard distinct counts; shards partition the enumeration by case index]"),
         samples=samples[:8],
         exhaustive=(not deadline_hit) and not caps,
         spaces_completed=spaces if not deadline_hit else [],
